@@ -62,8 +62,9 @@ Definition range_ok (P : access -> bool) (m : memory) (o l : N) : bool :=
 Definition readable := range_ok can_read.
 Definition writable := range_ok can_write.
 
-Definition mread (m : memory) (o l : N) : bytes :=
-  map (fun i => m_byte m (o + N.of_nat i)) (seq 0 (N.to_nat l)).
+Fixpoint mread_from (m : memory) (a : N) (n : nat) : bytes :=
+  match n with O => [] | S k => m_byte m a :: mread_from m (N.succ a) k end.
+Definition mread (m : memory) (o l : N) : bytes := mread_from m o (N.to_nat l).
 Definition mwrite (m : memory) (o : N) (d : bytes) : memory :=
   mkMem (m_acc m)
         (fun a => if (o <=? a) && (a <? o + blen d) then nth (N.to_nat (a - o)) d 0 else m_byte m a).
